@@ -163,7 +163,7 @@ class BodyMixin:
                 return None
             try:
                 return json_mod.loads(b)
-            except ValueError:  # incl. JSONDecodeError, UnicodeDecodeError
+            except (ValueError, RecursionError):  # incl. JSONDecodeError, UnicodeDecodeError; too deep nesting
                 self._raise(BodyParsingError('Invalid JSON'), RequestError)
         return None
 
